@@ -23,6 +23,7 @@ OPS = [("co_count", co_count), ("co_sum", co_sum), ("co_min", co_min), ("co_max"
        ("co_avg", co_avg), ("co_median", co_median)]
 OPF = dict(OPS)
 
+HANG_IS_VIOLATION = False      # cost depends on generated grid / file sizes: a CPU budget hit is inconclusive here
 ASSUMPTIONS = [
     "grid geometry is read from the raster (xmin, ymin, resolution, ncol, nrow); cell (col,row) has the closed footprint "
     "[xmin+col*rx, xmin+(col+1)*rx] x [ymin+(nrow-1-row)*ry, ymin+(nrow-row)*ry] (rows counted from the top, as "
